@@ -58,6 +58,8 @@ def gen_case(rng, big=False):
     nb = rng.choice([2, 3, 4, 6])
     ng = rng.randint(1, 12 if not big else 30)
     groups, infos, scores = [], [], []
+    # a fifth of the inputs have nearly-equal scores (distinct doubles a few 2^-30 apart): the ranking is by the exact score
+    near = rng.random() < 0.2
     for _ in range(ng):
         k = rng.choice([1, 1, 2, 3])
         g = []
@@ -76,7 +78,7 @@ def gen_case(rng, big=False):
             inf.append([gens.grid_pep(rng, small=True), e, prots])
         groups.append(g)
         infos.append(inf)
-        scores.append(gens.fr(rng.choice([1.0, 2.0, 2.0, 3.5, 7.25])))
+        scores.append(gens.fr(rng.choice([1.0, 2.0, 2.0, 3.5, 7.25]) + (rng.choice([0, 1, 2, 3]) * 2.0 ** -30 if near else 0.0)))
     return {"strategy": rng.choice(list(STRATS)), "groups": groups, "infos": infos, "scores": scores,
             "seed": rng.randint(0, 2 ** 31 - 1)}
 
@@ -94,7 +96,7 @@ class CompetitionSuite(Suite):
     runf = "run02"
     deterministic = False
     rule = ("1-12 groups over 2-6 base identifiers with REV__/rev_/OBSOLETE__/CON__ decorations (cleaned ids collide), "
-            "0-4 peptides each mapping to sub-lists of the group, scores from a 4-value set; exhaustive 2-3 group "
+            "0-4 peptides each mapping to sub-lists of the group, scores from a 4-value set (a fifth of the inputs: those values plus 0-3 times 2^-30); exhaustive 2-3 group "
             "configurations over 2 base ids; all three strategies; the two shuffles are recorded from numpy and replayed "
             "in the model; non-trivial = a competition removal and a score tie")
 
